@@ -44,7 +44,7 @@ RULE = ("History on ONE operator: (jac|hess) x function kind [plain function wit
         "H.mv,H.rmv,H.mm,H.fullmatrix} with operand batch rank 0-2 under no_grad/enable_grad; first- and second-order "
         "gradient of the last product w.r.t. everything currently installed; substitute fresh tensors through "
         "uselinopparams (nested <=3; all new / partly identical / only the object's tensors / only the explicit arguments); leave the innermost substitution; solve(J,B) with "
-        "cg/bicgstab/exactsolve/custom_exactsolve + its gradient; in a quarter of the histories the operator is made and used inside a caller-opened substitution of the object's tensors. One fault-free execution numbers the N entries into the "
+        "cg/bicgstab/exactsolve/custom_exactsolve + its gradient; a first-order gradient taken WITHOUT retaining the graph of the product (one in three); a product of a sibling operator from the same jac()/hess() call (other argument) while substitutions are open on the operator under test; in a quarter of the histories the operator is made inside a caller-opened substitution of the object's tensors, which in half of those ends right after the construction (the operator outlives it). One fault-free execution numbers the N entries into the "
         "user's function, then <=2 (quick) executions with the function raising at a drawn entry k and the request "
         "retried. A case is non-trivial iff a product or gradient was judged under a substitution (cache-miss path) AND "
         "one after it was left or before it (cache-hit path); distinct = distinct (jac|hess, function kind, object kind, "
